@@ -835,7 +835,7 @@ ALIAS_FORMS = [
     ("hold/fstr", "x[0] = 9\na = f'{z}'"),
     ("ident", "a = x is z\nb = x is not z\nc = x[:] is x\nd = x is x"),
     # a comprehension iterates the live object; its target may store into it
-    ("comp/store", "a = [0 for x[0] in z]"),
+    ("comp/store", "a = [x[2] for x[2] in z]"),          # (live: the third item read is the one the second step stored)
     ("comp/store1", "a = [v for x[1], v in [(7, z), (8, x)]]"),
     ("comp/read", "x[0] = 9\na = [v for v in z if v]"),
 ]
